@@ -35,7 +35,7 @@ P = {
          "scenario = (swarm environment, buffer-building keys, edit script with movement probes and numeric arguments); distinct = distinct abstract-state sequence hash; non-trivial = more than 3 input waits", [], "§6 C06"),
  "C10": (True, "fault_enumeration", "crash-point enumeration on the real file source: every byte offset of the last append (records <= 4 KiB), sampled beyond, byte flips in the torn tail, short writes with ENOSPC; reference log oracle",
          "For each generated write sequence the last append is cut at EVERY byte offset (exhaustive per record up to 4 KiB, sampled offsets for larger ones), optionally with a flipped tail byte, the source is reopened from the durable bytes only, compared with the reference log of acknowledged writes, and written to again to check durability after recovery.",
-         "trusted: crash model = prefix of the last append survives (single write(2) with O_APPEND); tmpfs as disk; short-write hook H5",
+         "trusted: crash model = prefix of the last append survives (single write(2) with O_APPEND); tmpfs as disk; short-write hook H5; the file is reopened through NewHistoryFromFile or, in 30 % of the runs, by one long-lived Shell under one source name (History.AddFromFile)",
          "run = (write/reopen/crash/short-write op sequence); distinct = distinct (op-kind sequence, crash points) hash; non-trivial = at least one reopen or crash point; crash_points counts reopen cycles at distinct offsets", [], "§6 C10"),
  "C12": (True, "exploration", "seeded grammar-derived and damaged inputrc texts through faulty readers and a simulated include file system (cycles, missing files, read errors); totality oracle in a child process",
          "Seeded generation of well-formed programs damaged the way stored files get damaged (truncation, byte flips, junk, fragments), delivered through 1-byte/short/failing readers and include graphs with self-loops and cycles; the parser must return. Stack overflow and endless loops are caught because each worker is a separate process under a watchdog.",
@@ -58,7 +58,7 @@ P.update({
     "scenario = (geometry, prompt shape, history lines of targeted shapes, paint/edit script); distinct = distinct abstract-state sequence hash; non-trivial = at least one frame judged; frames_judged/unjudged counted", "§6 C04"),
  "C07": _p("exploration", "deterministic simulation of undo/redo sessions; monitor over the recorded per-line snapshot history",
     "A monitor over the buffers shown at input waits checks that undo only yields earlier states of that line, that enough undos reach the initial content, that undo^n redo^n is the identity on text and that an edit after undo discards the redo branch.",
-    "trusted: line identity tracked with the trivial walk model (no search commands in this alphabet)",
+    "trusted: line identity tracked with the walk model (previous/next-history, beginning/end-of-history jumps) and, for the line-or-search arrow keys of vi insert mode, read off the buffer shown (the histories have distinct entries)",
     "scenario = (edit/undo/redo/history-walk script, emacs or vi); distinct = abstract-state sequence hash; non-trivial = at least one undo judged", "§6 C07"),
  "C08": _p("exploration", "deterministic simulation of accept/exit variants over 1-3 bound history sources (real memory, real file, simulated failing source) with injected Source.Write errors and an EOF fault; per-source reference model of the recording rule",
     "For each session the contents of every bound source are observed before and after each Readline return and compared with a reference model of the rule (exactly once, unless blank/duplicate/full/error/replay command); a source whose own Write failed may lack the entry, the others may not.",
